@@ -35,6 +35,7 @@ type Sess struct {
 	finalized    bool
 	provingLemma *Axiom
 	usedAxioms   []string
+	arrCons      map[string][]string // named small-array values with known element terms
 	uses         map[string]bool // manual axioms / lemmas requested by the contract or lemma under proof
 	heapOwner    map[string]string
 	axiomErrs    []string
@@ -98,7 +99,62 @@ func (s *Sess) name(prefix, sort, term string) string {
 	}
 	n := s.fresh(prefix, sort)
 	s.assert("(= " + n + " " + term + ")")
+	if strings.HasPrefix(term, "(mk_Arr") {
+		// remember the elements of a named small-array value: later stores / loads at constant
+		// indices work on the element terms directly (flat constructors, no selector chains)
+		if els := splitArgs(term); len(els) > 0 {
+			if s.arrCons == nil {
+				s.arrCons = map[string][]string{}
+			}
+			s.arrCons[n] = els
+		}
+	}
 	return n
+}
+
+// splitArgs returns the top-level arguments of "(f a1 ... an)".
+func splitArgs(t string) []string {
+	if len(t) < 2 || t[0] != '(' || t[len(t)-1] != ')' {
+		return nil
+	}
+	body := t[1 : len(t)-1]
+	var out []string
+	depth, start := 0, -1
+	for i := 0; i <= len(body); i++ {
+		if i == len(body) || (body[i] == ' ' && depth == 0) {
+			if start >= 0 {
+				out = append(out, body[start:i])
+				start = -1
+			}
+			continue
+		}
+		if start < 0 {
+			start = i
+		}
+		switch body[i] {
+		case '(':
+			depth++
+		case ')':
+			depth--
+		}
+	}
+	if len(out) < 1 {
+		return nil
+	}
+	return out[1:]
+}
+
+// arrElems: the element terms of small-array value x if it is a constructor term or a name bound to one.
+func (s *Sess) arrElems(u *types.Array, x string) []string {
+	if els, ok := s.arrCons[x]; ok && int64(len(els)) == u.Len() {
+		return els
+	}
+	if strings.HasPrefix(x, "(mk_"+s.arrSort(u)+" ") {
+		if els := splitArgs(x); int64(len(els)) == u.Len() {
+			return els
+		}
+	}
+	return nil
 }
 
 func isAtom(t string) bool {
@@ -535,6 +591,9 @@ func (s *Sess) arrSelect(u *types.Array, x, i string) string {
 	}
 	sn := s.arrSort(u)
 	if c, ok := isConstTerm(i); ok && c.IsInt64() && c.Int64() >= 0 && c.Int64() < u.Len() {
+		if els := s.arrElems(u, x); els != nil {
+			return els[c.Int64()]
+		}
 		return fmt.Sprintf("(e%d_%s %s)", c.Int64(), sn, x)
 	}
 	if u.Len() == 0 {
@@ -563,9 +622,13 @@ func (s *Sess) arrStore(u *types.Array, x, i, v string) string {
 	}
 	sn := s.arrSort(u)
 	c, isC := isConstTerm(i)
+	known := s.arrElems(u, x)
 	var fs []string
 	for k := int64(0); k < u.Len(); k++ {
 		cur := fmt.Sprintf("(e%d_%s %s)", k, sn, x)
+		if known != nil {
+			cur = known[k]
+		}
 		switch {
 		case isC && c.IsInt64() && c.Int64() == k:
 			fs = append(fs, v)
